@@ -204,6 +204,7 @@ type Ctx struct {
 	initFinished map[*ssa.Package]bool
 	MaxPaths     int
 	MaxVisits    int
+	UnwindDrop   bool // bounded harnesses: drop (instead of asserting infeasible) paths that exceed MaxVisits
 	NoMerge      bool
 	Notes        map[string]bool
 }
@@ -779,6 +780,9 @@ func (fx *FnExec) runBlock(fr *Frame, b *ssa.BasicBlock, prev *ssa.BasicBlock, s
 	fr.Visits[b]++
 	if fr.Visits[b] > fx.Cx.MaxVisits {
 		// unwinding assertion: this path must be infeasible
+		if fx.Cx.UnwindDrop {
+			return
+		}
 		fx.Oblige(st, fmt.Sprintf("%s%s#unwind[b%d]", fr.Prefix, FuncName(fr.Fn), b.Index), "unwind", False, "", "loop not fully unrolled within limit")
 		return
 	}
@@ -883,6 +887,9 @@ func (fx *FnExec) runFrom(fr *Frame, b *ssa.BasicBlock, start int, st *State, k 
 						}
 						mf.Visits[J]++
 						if mf.Visits[J] > fx.Cx.MaxVisits {
+							if fx.Cx.UnwindDrop {
+								return
+							}
 							fx.Oblige(ms, fmt.Sprintf("%s%s#unwind[b%d]", fr.Prefix, FuncName(fr.Fn), J.Index), "unwind", False, "", "loop not fully unrolled within limit")
 							return
 						}
